@@ -118,6 +118,11 @@ def run_op_with_images(kind, prep, op, C, cfgbackend=False):
         for o in prep:
             apply_op(st, o)
         st = open_store(kind, path)          # the writer is a fresh process image
+        if op["t"] == "http":
+            # the operation arrives as an HTTP request at a server whose root holds the store
+            # as the collection /store/
+            from .world import World
+            st = World(frontend="wsgi", prefix="/", root=base, autocreate=False)
         pre = observe(kind, path, C)
         imgdir = os.path.join(base, "images")
         os.makedirs(imgdir)
@@ -128,6 +133,8 @@ def run_op_with_images(kind, prep, op, C, cfgbackend=False):
                 apply_op(st, op)
             except Exception as exc:
                 err = type(exc).__name__
+        if op["t"] == "http":
+            st.stop()
         final = observe(kind, path, C)
         # crash while the last file opened for writing has not been flushed yet
         if im.opened:
@@ -168,5 +175,15 @@ def apply_op(st, o):
         st.delete_one(o["n"])
     elif t == "prop":
         getattr(st, "set_" + o["p"])(o["v"])
+    elif t == "http":
+        body = o.get("data")
+        if o["method"] == "PROPPATCH":
+            body = gamma.proppatch_body([(o["p"], o["v"])])
+        hdrs = [("Content-Type", o["ct"])] if o.get("ct") else []
+        if o["method"] == "PROPPATCH":
+            hdrs = [("Content-Type", "text/xml")]
+        r = st.request(o["method"], "/store/" + (o.get("n") or ""), hdrs, body)
+        if r.status >= 400:
+            raise RuntimeError("http %d" % r.status)
     else:
         raise ValueError(t)
